@@ -37,6 +37,7 @@ def step (s : DState) (line : String) : DState × String :=
   | some ("kmuxfid", _) => (s, kmuxfid toks)
   | some ("kstale", _) => (s, kstale toks)
   | some ("kalias", _) => (s, kalias toks)
+  | some ("kxconn", _) => (s, kxconn toks)
   | some ("kearly", _) => (s, kearly toks)
   | some ("kchunk", _) => (s, kchunk toks)
   | some ("kneg", _) => (s, kneg toks)
